@@ -171,7 +171,21 @@ var corpus = []func(o *hx.Out, k int){
 		h.gcl(4)
 		h.checkRetained(h.m.View(), true)
 	},
-	// 9: state jump (seed C11-m5): a module at genesis is cleaned, the sync point's trie (a leaf at
+	// 9: regression for bb76634 (the residual of 956252a, now repaired): a leaf at three positions, restart (the trie is re-loaded lazily, the
+	// refcount entry of the leaf gets the STORE's slice as its bytes when the second copy is
+	// resolved: trie.go getFromStore), two copies removed in one block: updateRefCount appends the
+	// suffix to that slice and the stored counter changed (3 -> 1) before the block was committed;
+	// must pass now (pre-commit oracle, byte-exact)
+	func(o *hx.Out, k int) {
+		h := newHist(o, k, "latest", newModM("latest"))
+		h.probes = probes("3101", "5101", "7101", "9901")
+		h.block(0, B("3101=aa", "5101=aa", "7101=aa", "9901=bb"))
+		h.reset()
+		h.block(1, B("3101=del", "5101=del"))
+		h.block(2, B("7101=del"))
+		h.checkRetained(h.m.View(), true)
+	},
+	// 10: state jump (seed C11-m5): a module at genesis is cleaned, the sync point's trie (a leaf at
 	// three positions) restored with a persist before every node and JumpToState; the next block
 	// removes two copies and a key: in ModeGC the dropped nodes must be marked inactive with the
 	// height, the sync point's root stays readable; collection, restart, more blocks; a replica that
@@ -198,7 +212,7 @@ var corpus = []func(o *hx.Out, k int){
 		h.cmpReplica(p)
 		h.checkRetained(h.m.View(), true)
 	},
-	// 10, 11: state-sync restore of a trie with the same sub-trie at two paths, flushed to a copying
+	// 11, 12: state-sync restore of a trie with the same sub-trie at two paths, flushed to a copying
 	// persistent layer before every restoration; then copies are removed and everything is read
 	func(o *hx.Out, k int) { corpusRestore(o, k, "copy") },
 	func(o *hx.Out, k int) { corpusRestore(o, k, "bolt") },
